@@ -692,6 +692,9 @@ func init() {
 					if !c.Quick() && m >= 2 && b != 0 && !(b == 6 && m == 2) {
 						continue // thorough: every behaviour mode with no / all mutexes, the other placements plain
 					}
+					if !c.Quick() && ((m == 1 && (b == 1 || b == 2)) || (b == 8 && m == 1)) {
+						continue // thorough: the single index options are tried without mutexes (mode 4 = all of them, with)
+					}
 					if (b == 6 && m != 1 && m != 2) || (b >= 7 && m > 1) {
 						continue // late locking: all / root only; freed builder handles: no / all mutexes
 					}
